@@ -5,6 +5,7 @@ from __future__ import annotations
 import copy
 import io
 import json
+import os
 import random
 from typing import Any, Dict, List, Optional, Tuple
 
@@ -176,6 +177,22 @@ def raising_class(e: BaseException) -> Optional[str]:
     return CTOR_CLASS.get(name) or "".join(w.capitalize() for w in name[len("_construct_"):].split("_"))
 
 
+def constructs_alone(sub: dict) -> bool:
+    from basyx.aas.adapter.json import StrictAASFromJsonDecoder
+    try:
+        json.loads(json.dumps(sub), cls=StrictAASFromJsonDecoder)
+        return True
+    except Exception:
+        return False
+
+
+def is_constraint(e: BaseException) -> bool:
+    """the root cause is a metamodel constraint violation: raised by a constructor AFTER its arguments were converted"""
+    while e.__cause__ is not None:
+        e = e.__cause__
+    return any(c.__name__ == "AASConstraintViolation" for c in type(e).__mro__)
+
+
 def classes_along(T, kind, j, path):
     """[(prefix length, class)] for every object on `path` inside JSON value j (table-directed, like wire_of_json)"""
     out = []
@@ -273,7 +290,9 @@ def correspond(ctx: C.Ctx, cov: C.Coverage) -> List[C.Disagreement]:
                 "identifiable or in a required member; distinct = (class of identifiable, member, operator)")
     depth = 3 if ctx.tier == "quick" else 4
     undocumented: List[C.Disagreement] = []
-    for i in range(n):
+    only = [int(x) for x in os.environ.get("VERIF_C09_ONLY", "").split(",") if x]       # development aid: these indices only
+    for i in (only or range(n)):
+        rng = random.Random(f"C09:{ctx.seed}:{i}")        # per case: a disagreement replays from (seed, index, depth) alone
         objs, doc = make_doc(ctx.seed, i, depth)
         dmg = damage_json(doc, rng)
         if dmg is None:
@@ -291,12 +310,16 @@ def correspond(ctx: C.Ctx, cov: C.Coverage) -> List[C.Disagreement]:
         listname, idx = path[0], path[1]
         single = {listname: [doc[listname][idx]]}
         rcls = None
+        constraint = False
         try:
             read_json(single, False)
             k = None
         except Exception as e:
             k = root_cause(e)
             rcls = raising_class(e)
+            constraint = is_constraint(e)
+        if op == "hugeliteral" and k is None:
+            continue          # the literal is inside what the SDK's class for the type holds (xs:float is a Python float): no damage
         if k is not None and k not in DOCUMENTED:
             # outside the model's SPEC assumption (`raisable`: conversions raise one of the four documented kinds)
             undocumented.append(C.Disagreement(f"damaged json document ({op} at {list(path)}): the conversion raises an undocumented kind",
@@ -320,13 +343,31 @@ def correspond(ctx: C.Ctx, cov: C.Coverage) -> List[C.Disagreement]:
         rel = tuple(path[2:])
         on_path = classes_along(T, poly, doc[listname][idx], rel)
         cands = [d for d, c in on_path if c == rcls or (rcls == "LangString" and str(c).startswith("LangString"))]
-        items_b = build(rel[:cands[-1]] if cands else tuple(path[2:-1]))
+        fallback = tuple(path[2:-1])
+        if op == "delete" and rel and rel[-1] == "idShort":
+            # an object without idShort constructs; the constructor that raises (AASd-117) belongs to a PROPER ancestor
+            own = len(rel) - 1
+            cands = [d for d in cands if d < own]
+            above = [d for d, _ in on_path if d < own]
+            fallback = rel[:above[-1]] if above else ()
+        # several objects of the raising class on the path (a list inside a list, an entity inside an entity): the raising one
+        # is the deepest that does not construct on its own
+        hit_b = None
+        for d in reversed(cands):
+            sub = jget_safe(doc[listname][idx], rel[:d])
+            if isinstance(sub, dict) and "modelType" in sub and constructs_alone(sub):
+                continue
+            hit_b = d
+            break
+        if cands and hit_b is None:
+            hit_b = cands[0]
+        items_b = build(rel[:hit_b] if cands else fallback)
         try:
             got = read_json(doc, True)
-            r = ["ok", sorted((T.erase_flags(T.sort_unordered(T.to_val(o))) for o in got), key=json.dumps)]
+            r = ["ok", sorted((T.sort_unordered(T.erase_flags(T.to_val(o)), None, True) for o in got), key=json.dumps)]
         except Exception as e:
             r = ["err", root_cause(e)]
-        case = {"seed": ctx.seed, "index": i, "op": op, "path": list(path), "fmt": "json"}
+        case = {"seed": ctx.seed, "index": i, "op": op, "path": list(path), "fmt": "json", "_constraint": constraint and bool(cands)}
         try:
             read_json(doc, False); rs = "ok"
         except Exception as e:
@@ -343,7 +384,8 @@ def correspond(ctx: C.Ctx, cov: C.Coverage) -> List[C.Disagreement]:
     out, expect2, cases2 = [], [], []
     for q in range(0, len(out_all), 4):
         a_f, a_s, b_f, b_s = out_all[q:q + 4]
-        use_b = a_s[0] == "ok" and expect[q + 1][1] == "err"
+        # ... or the root cause is a constraint violation (AASd-...): the leaf converted, an enclosing constructor raised
+        use_b = (a_s[0] == "ok" and expect[q + 1][1] == "err") or cases[q].get("_constraint", False)
         out += [b_f, b_s] if use_b else [a_f, a_s]
         expect2 += [expect[q], expect[q + 1]]
         cases2 += [cases[q], cases[q + 1]]
@@ -354,11 +396,15 @@ def correspond(ctx: C.Ctx, cov: C.Coverage) -> List[C.Disagreement]:
             ok = (m[0] == "ok") == (e[1] == "ok")
             mm = m[0]
         elif m[0] == "ok":
-            mm = ["ok", sorted((T.erase_flags(T.sort_unordered(v)) for v in m[1]), key=json.dumps)]
+            mm = ["ok", sorted((T.sort_unordered(T.erase_flags(v), None, True) for v in m[1]), key=json.dumps)]
             ok = mm == e
         else:
             mm = m
             ok = e[0] == "err"          # both escape; the kind is not compared
+        if not ok and only:
+            import sys
+            print("MODEL", json.dumps(mm), file=sys.stderr)
+            print("IMPL ", json.dumps(e), file=sys.stderr)
         if not ok:
             dis.append(C.Disagreement(f"damaged json document ({case['op']} at {case['path']}) {'strict' if e[0] == 'strict' else 'failsafe'}",
                                       case, c03._first_diff(mm, e) if isinstance(mm, list) else mm, e if e[0] != "ok" else "see model"))
@@ -454,6 +500,8 @@ def check_case(case: dict) -> Optional[C.Failing]:
             return C.Failing(f"failsafe:{fmt}:undamaged-lost", f"undamaged identifiable {oid!r} missing after '{op}' on {damaged_id!r}",
                              dict(case, op=op, path=list(path)))
         d = canon.diff(c, got_c[oid])
+        if d and op.startswith("pi-after-blank-text"):
+            return C.Failing(BLANK_SIG, f"undamaged identifiable {oid!r} changed: {d[:160]}", dict(case, op=op, path=list(path)))
         if d:
             return C.Failing(f"failsafe:{fmt}:undamaged-changed", f"undamaged identifiable {oid!r} changed: {d[:160]}", dict(case, op=op, path=list(path)))
     try:
@@ -555,7 +603,10 @@ def damage_xml(objs, rng: random.Random, sweep=None):
         if op == "pi":
             # a processing instruction is not damage: everything must come back
             where = rng.choice([root, target.getparent(), target, e])
-            where.insert(rng.randint(0, len(where)), etree.ProcessingInstruction("vf", "noise"))
+            at = rng.randint(0, len(where))
+            where.insert(at, etree.ProcessingInstruction("vf", "noise"))
+            if at == 0 and where.text and not where.text.strip():
+                op = "pi-after-blank-text"       # own signature: see blank_text_check()
             return root, None, op
         if op == "toplist":
             others = [lst for lst in root if lst is not target.getparent()]
@@ -655,6 +706,7 @@ def oracle(ctx: C.Ctx, cov: C.Coverage, n: Optional[int] = None, seed: Optional[
     out += [f for f in garbage_checks(seed) if f.sig not in sigs]
     out += [f for f in foreign_forms_check() if f.sig not in sigs and f.sig not in {g.sig for g in out}]
     out += [f for f in duplicate_id_check() if f.sig not in {g.sig for g in out}]
+    out += [f for f in blank_text_check() if f.sig not in {g.sig for g in out}]
     return out
 
 
@@ -704,6 +756,38 @@ def foreign_forms_check() -> List[C.Failing]:
                 out.append(C.Failing(f"failsafe:{fmt}:undamaged-changed", f"{xs} literal {lit!r} read as {canon.native(v)}, denotes {token}",
                                      {"foreign_forms": fmt}))
                 break
+    return out
+
+
+BLANK_SIG = "failsafe:xml:blank-text-before-pi-or-comment:lost"
+
+
+def blank_text_check() -> List[C.Failing]:
+    """A text that consists of white space only, followed by a processing instruction or a comment inside the same element: the
+    same infoset as without the noise (directed form of the 'pi' operator hitting such a leaf)."""
+    from basyx.aas.adapter.xml import read_aas_xml_file
+    c03._quiet()
+    out: List[C.Failing] = []
+    ns = "https://admin-shell.io/aas/3/0"
+    for name, noise in (("pi", "<?vf noise?>"), ("comment", "<!-- note -->")):
+        for text in ("  ", "\n", " \t "):
+            xml = (f'<?xml version="1.0"?><aas:environment xmlns:aas="{ns}"><aas:submodels><aas:submodel><aas:displayName>'
+                   f'<aas:langStringNameType><aas:language>en</aas:language><aas:text>{text}{noise}</aas:text></aas:langStringNameType>'
+                   f'</aas:displayName><aas:id>urn:blank</aas:id></aas:submodel><aas:submodel><aas:id>urn:second</aas:id></aas:submodel>'
+                   f'</aas:submodels></aas:environment>').encode()
+            case = {"blank_text": [name, text]}
+            try:
+                got = {o.id: o for o in read_aas_xml_file(io.BytesIO(xml), failsafe=True)}
+            except Exception as e:
+                out.append(C.Failing(f"failsafe:xml:raises:{root_cause(e)}", f"failsafe xml reader raised on a blank text followed by a {name}: {e!r}"[:200], case))
+                continue
+            sm = got.get("urn:blank")
+            dn = None if sm is None or sm.display_name is None else dict(sm.display_name)
+            if "urn:second" not in got:
+                out.append(C.Failing("failsafe:xml:undamaged-lost", f"second submodel missing next to a blank text followed by a {name}", case))
+            elif dn != {"en": text}:
+                out.append(C.Failing(BLANK_SIG, f"<aas:text>{text!r}{noise}</aas:text> (white-space-only text followed by a {name}) read as "
+                                     f"{'a missing submodel' if sm is None else 'display_name ' + repr(dn)}, denotes {{'en': {text!r}}}", case))
     return out
 
 
@@ -815,6 +899,9 @@ def search(ctx: C.Ctx, disagreements, broken) -> List[C.Failing]:
 def replay(case) -> Optional[C.Failing]:
     if isinstance(case, dict) and "duplicate_id" in case:
         fs_ = [f for f in duplicate_id_check() if f.case.get("duplicate_id") == case["duplicate_id"]]
+        return fs_[0] if fs_ else None
+    if isinstance(case, dict) and "blank_text" in case:
+        fs_ = [f for f in blank_text_check() if f.case.get("blank_text") == case["blank_text"]]
         return fs_[0] if fs_ else None
     if isinstance(case, dict) and "foreign_forms" in case:
         fs = [f for f in foreign_forms_check() if f.case.get("foreign_forms") == case["foreign_forms"]]
